@@ -227,7 +227,10 @@ pub fn eval_case(ops: &[Op], drv: Option<&mut Drv>, pools: &[Pool], rng: &mut Rn
                 4
             };
             plan_rounds.push((mode.to_string(), Some(t), how));
-            plan_rounds.push((mode.to_string(), None, 0));
+            // the clean dispatch after it: the same way, or another way of dispatching (what one
+            // entry point leaves behind when it unwinds must not disturb another)
+            let clean = if rng.chance(60) { mode } else { *rng.pick(&["par", "seq", "paronly"]) };
+            plan_rounds.push((clean.to_string(), None, 0));
         }
         if all_tags.len() >= 2 && rng.chance(50) {
             // two at once (from different groups of one stage when there is such a stage), at a
@@ -501,6 +504,21 @@ pub fn eval_case(ops: &[Op], drv: Option<&mut Drv>, pools: &[Pool], rng: &mut Rn
                 if real != model {
                     out.model_v.push(("effects".into(), format!("state of system {} after {} dispatches: real {:?} model {:?}", t, full_rounds, real, model)));
                 }
+            }
+        }
+    }
+    // --- the plan of a built dispatcher is fixed: after all these dispatches (pools narrower than
+    // its stages included) the same systems sit at the same places
+    if !cfg.panics {
+        if let AnyDisp::D(d) = &mut disp {
+            shared.reset_behaviour();
+            match identify(d, &shared, &built) {
+                Ok(l2) => {
+                    if l2.show() != lay.show() {
+                        out.impl_v.push(("C19".into(), format!("after {} dispatches the built dispatcher's plan is {} — it was {} when it was built", out.traces, l2.show(), lay.show())));
+                    }
+                }
+                Err(e) => out.impl_v.push(("C19".into(), format!("after {} dispatches the plan can no longer be identified: {}", out.traces, e))),
             }
         }
     }
